@@ -17,7 +17,7 @@ use std::rc::Rc;
 pub const INFO: PropInfo = PropInfo {
     quick_runs: 40_000,
     thorough_runs: 1_500_000,
-    rule: "each run = one JWT configuration (HS256/384/512, generated secret incl. empty and longer than the hash block, fang at the root / on a mount / local to a handler; token taken from the default place, or via `.get_token_by` from a custom header (then sometimes with a valid decoy token in the default place) or from another scheme) and 2..10 requests on a keep-alive connection (sometimes reconnecting), \
+    rule: "each run = one JWT configuration (HS256/384/512, generated secret incl. empty and longer than the hash block, fang at the root / on a mount / local to a handler; in a third of the runs a second configuration with another secret and the same or another algorithm guards a second route, and tokens of either are sent to either; token taken from the default place, or via `.get_token_by` from a custom header (then sometimes with a valid decoy token in the default place) or from another scheme) and 2..10 requests on a keep-alive connection (sometimes reconnecting), \
            each with a generated token (issued by the same configuration, built by the reference model with any payload and header, single-character mutations, re-signed with another key or algorithm, alg none/other/missing, typ/cty variants, 1/2/4 parts, wrong signature lengths, other schemes, garbage, missing, or the very same token as an earlier request at an instant on the other side of one of its time claims) \
            and a simulated wall-clock instant chosen around the token's exp/nbf/iat (clock jumps forwards and backwards between requests); non-trivial = at least one token was admitted and one refused; distinct = distinct hash of (configuration, tokens, instants)",
     state_measure: "(token kind, verdict of the model, relation of now to the time claims) combinations",
@@ -27,7 +27,7 @@ pub const INFO: PropInfo = PropInfo {
         "payload objects carry no duplicate keys",
         "HMAC is implemented independently (ipad/opad construction) on top of the sha2 crate's compression functions; SHA-2 itself is trusted and cross-checked against Python's hashlib once per batch",
     ],
-    expected_probes: &["c12.issued_token_admitted", "c12.expired_refused", "c12.exp_boundary", "c12.nbf_boundary", "c12.clock_jump_backwards", "c12.mutation_refused", "c12.other_key_refused", "c12.alg_none_refused", "c12.four_parts", "c12.fractional_time_claim", "c12.previous_payload_not_leaked", "c12.options_bypass", "c12.custom_token_source", "c12.decoy_in_default_place", "c12.same_token_again_other_verdict"],
+    expected_probes: &["c12.issued_token_admitted", "c12.expired_refused", "c12.exp_boundary", "c12.nbf_boundary", "c12.clock_jump_backwards", "c12.mutation_refused", "c12.other_key_refused", "c12.alg_none_refused", "c12.four_parts", "c12.fractional_time_claim", "c12.previous_payload_not_leaked", "c12.options_bypass", "c12.custom_token_source", "c12.decoy_in_default_place", "c12.same_token_again_other_verdict", "c12.two_configurations", "c12.token_of_the_other_realm_refused"],
 };
 
 #[derive(Clone, Debug, Serialize, Deserialize)]
@@ -42,6 +42,9 @@ pub struct Req {
     /// with a customised token source: a VALID token sent in the default place, which must not count
     #[serde(default)]
     pub decoy: Option<String>,
+    /// which protected realm the request goes to: 0 `/api/me`, 1 `/api2/me` (second configuration, if any)
+    #[serde(default)]
+    pub realm: u8,
 }
 #[derive(Clone, Debug, Serialize, Deserialize)]
 pub struct Scenario {
@@ -53,6 +56,14 @@ pub struct Scenario {
     /// 0 default (`Authorization: Bearer <t>`), 1 `.get_token_by` reading the custom header `X-Token: <t>`, 2 `.get_token_by` with the scheme `Token`
     #[serde(default)]
     pub token_source: u8,
+    /// a second JWT configuration (same or another algorithm, another secret) guarding `/api2/me` in the same application
+    #[serde(default)]
+    pub second: Option<SecondCfg>,
+}
+#[derive(Clone, Debug, Serialize, Deserialize)]
+pub struct SecondCfg {
+    pub alg: u16,
+    pub secret: String,
 }
 
 // ---- independent token model ----------------------------------------------------------------------
@@ -351,7 +362,7 @@ fn gen_req(sc_alg: u16, secret: &str, now_base: u64, issue: &dyn Fn(&Value) -> S
         _ => ("missing".into(), None),
     };
     let method = if t::chance(1, 12) { "OPTIONS" } else if t::chance(1, 4) { "POST" } else { "GET" };
-    Req { method: method.into(), authorization: auth, kind, now, reconnect_before: t::chance(1, 6), decoy: None }
+    Req { method: method.into(), authorization: auth, kind, now, reconnect_before: t::chance(1, 6), decoy: None, realm: 0 }
 }
 
 fn make_jwt(alg: u16, secret: &str) -> JWT<Value> {
@@ -376,6 +387,14 @@ pub fn generate(_cfg: &RunCfg, _out: &mut Outcome) -> Scenario {
     let mut reqs: Vec<Req> = Vec::new();
     let jwt = make_jwt(alg, &secret);
     let issue = |v: &Value| -> String { jwt.clone().issue(v.clone()).to_string() };
+    // two configurations in one process: whatever a verification remembers must not leak from one to the other
+    let second = if t::chance(1, 3) {
+        Some(SecondCfg { alg: if t::chance(2, 3) { alg } else { t::pick(&[256u16, 384, 512]) }, secret: format!("{}{}", t::pick(&["other-", "2", "Z"]), t::string(b"abcdef0123", 0, 12)) })
+    } else {
+        None
+    };
+    let jwt2 = second.as_ref().map(|s2| make_jwt(s2.alg, &s2.secret));
+    let issue2 = |v: &Value| -> String { jwt2.clone().map(|j| j.issue(v.clone()).to_string()).unwrap_or_default() };
     for _ in 0..n {
         // clock jumps between requests: forwards, backwards, not at all
         now = match t::weighted(&[4, 2, 2, 1]) {
@@ -413,7 +432,20 @@ pub fn generate(_cfg: &RunCfg, _out: &mut Outcome) -> Scenario {
             reqs.push(Req { kind: format!("same-token-again/{rel}"), now, reconnect_before: t::chance(1, 6), ..prev });
             continue;
         }
-        reqs.push(gen_req(alg, &secret, now, &issue));
+        match &second {
+            Some(s2) => {
+                let realm = t::draw(2) as u8;
+                // mostly a token of the realm it is sent to, sometimes one of the other realm
+                let signed_by = if t::chance(1, 4) { 1 - realm } else { realm };
+                let mut r = if signed_by == 0 { gen_req(alg, &secret, now, &issue) } else { gen_req(s2.alg, &s2.secret, now, &issue2) };
+                r.realm = realm;
+                if signed_by != realm {
+                    r.kind = format!("other-realm:{}", r.kind);
+                }
+                reqs.push(r);
+            }
+            None => reqs.push(gen_req(alg, &secret, now, &issue)),
+        }
     }
     let placement = t::draw(3) as u8;
     let token_source = t::weighted(&[3, 1, 1]) as u8;
@@ -424,7 +456,8 @@ pub fn generate(_cfg: &RunCfg, _out: &mut Outcome) -> Scenario {
             }
         }
     }
-    Scenario { alg, secret, placement, reqs, token_source }
+    let placement = if second.is_some() && placement == 0 { 1 } else { placement };
+    Scenario { alg, secret, placement, reqs, token_source, second }
 }
 
 pub fn run(cfg: &RunCfg, direct: Option<&serde_json::Value>) -> Outcome {
@@ -472,11 +505,24 @@ fn execute(sc: &Scenario, out: &mut Outcome) {
         let r = me(req);
         async move { r }
     };
-    let app = match sc.placement {
-        0 => Ohkami::new((jwt, "/api/me".GET(h).POST(h))),
-        1 => Ohkami::new(("/open".GET(|| async { "open" }), "/api".By(Ohkami::new((jwt, "/me".GET(h).POST(h)))))),
-        _ => Ohkami::new(("/open".GET(|| async { "open" }), "/api/me".GET((jwt.clone(), h)).POST((jwt, h)))),
+    let jwt2 = sc.second.as_ref().map(|s2| {
+        let j = make_jwt(s2.alg, &s2.secret);
+        match sc.token_source {
+            1 => j.get_token_by(from_x_token),
+            2 => j.get_token_by(from_token_scheme),
+            _ => j,
+        }
+    });
+    let app = match (sc.placement, jwt2) {
+        (0, _) => Ohkami::new((jwt, "/api/me".GET(h).POST(h))),
+        (1, None) => Ohkami::new(("/open".GET(|| async { "open" }), "/api".By(Ohkami::new((jwt, "/me".GET(h).POST(h)))))),
+        (_, None) => Ohkami::new(("/open".GET(|| async { "open" }), "/api/me".GET((jwt.clone(), h)).POST((jwt, h)))),
+        (1, Some(j2)) => Ohkami::new(("/open".GET(|| async { "open" }), "/api".By(Ohkami::new((jwt, "/me".GET(h).POST(h)))), "/api2".By(Ohkami::new((j2, "/me".GET(h).POST(h)))))),
+        (_, Some(j2)) => Ohkami::new(("/open".GET(|| async { "open" }), "/api/me".GET((jwt.clone(), h)).POST((jwt, h)), "/api2/me".GET((j2.clone(), h)).POST((j2, h)))),
     };
+    if sc.second.is_some() {
+        out.probe("c12.two_configurations");
+    }
     rt::serve(app);
     let obs: Rc<RefCell<Vec<Result<Resp, RecvErr>>>> = Rc::new(RefCell::new(Vec::new()));
     let o = obs.clone();
@@ -503,7 +549,7 @@ fn execute(sc: &Scenario, out: &mut Outcome) {
             });
             let cl = c.as_mut().unwrap();
             let (auth, _) = wire(token_source, r);
-            cl.send(format!("{} /api/me HTTP/1.1\r\nHost: s\r\n{auth}\r\n", r.method).as_bytes(), 0);
+            cl.send(format!("{} {} HTTP/1.1\r\nHost: s\r\n{auth}\r\n", r.method, if r.realm == 1 { "/api2/me" } else { "/api/me" }).as_bytes(), 0);
             let resp = cl.recv(false, DEFAULT_TIMEOUT).await;
             let ok = resp.is_ok();
             o.borrow_mut().push(resp);
@@ -535,15 +581,20 @@ fn execute(sc: &Scenario, out: &mut Outcome) {
         let Some(resp) = obs.get(k) else { break };
         let kind0 = r.kind.split('/').next().unwrap_or("").to_string();
         let (wire_lines, token) = wire(sc.token_source, r);
+        // the configuration guarding the realm this request went to
+        let (r_alg, r_secret): (u16, &str) = match (&sc.second, r.realm) {
+            (Some(s2), 1) => (s2.alg, s2.secret.as_str()),
+            _ => (sc.alg, sc.secret.as_str()),
+        };
         let j = match &token {
             // whether blanks around a header value belong to it is not C12's business: open when it matters
             Some(tk) if sc.token_source == 1 && tk.trim_matches([' ', '\t']) != tk => {
-                match (judge_token(sc.alg, &sc.secret, tk.trim_matches([' ', '\t']), r.now), judge_token(sc.alg, &sc.secret, tk, r.now)) {
+                match (judge_token(r_alg, r_secret, tk.trim_matches([' ', '\t']), r.now), judge_token(r_alg, r_secret, tk, r.now)) {
                     (Judgement::Refuse(a), Judgement::Refuse(_)) => Judgement::Refuse(a),
                     _ => Judgement::Open,
                 }
             }
-            Some(tk) => judge_token(sc.alg, &sc.secret, tk, r.now),
+            Some(tk) => judge_token(r_alg, r_secret, tk, r.now),
             None => Judgement::Refuse("no token where the configuration looks"),
         };
         if sc.token_source != 0 {
@@ -552,7 +603,7 @@ fn execute(sc: &Scenario, out: &mut Outcome) {
                 out.probe("c12.decoy_in_default_place");
             }
         }
-        let desc = format!("request {k} ({}; now={}; alg HS{}; token source {}; {} {:?})", r.kind, r.now, sc.alg, sc.token_source, r.method, wire_lines.chars().take(260).collect::<String>());
+        let desc = format!("request {k} ({}; now={}; realm {} guarded by HS{} with secret {:?}; token source {}; {} {:?})", r.kind, r.now, r.realm, r_alg, r_secret.chars().take(24).collect::<String>(), sc.token_source, r.method, wire_lines.chars().take(260).collect::<String>());
         let resp = match resp {
             Ok(x) => x,
             Err(e) => {
@@ -572,9 +623,9 @@ fn execute(sc: &Scenario, out: &mut Outcome) {
             // did the model decide differently for an earlier presentation of this token?
             let mine = matches!(j, Judgement::Admit(_));
             let earlier_differs = sc.reqs[..k].iter().any(|e| {
-                e.authorization == r.authorization && {
+                e.authorization == r.authorization && e.realm == r.realm && {
                     let (_, tk) = wire(sc.token_source, e);
-                    tk.map(|tk| matches!(judge_token(sc.alg, &sc.secret, &tk, e.now), Judgement::Admit(_)) != mine).unwrap_or(false)
+                    tk.map(|tk| matches!(judge_token(r_alg, r_secret, &tk, e.now), Judgement::Admit(_)) != mine).unwrap_or(false)
                 }
             });
             if earlier_differs {
@@ -633,6 +684,7 @@ fn execute(sc: &Scenario, out: &mut Outcome) {
                 match kind0.as_str() {
                     "mutated" => out.probe("c12.mutation_refused"),
                     "other-key" => out.probe("c12.other_key_refused"),
+                    k if k.starts_with("other-realm:") => out.probe("c12.token_of_the_other_realm_refused"),
                     "alg-header-variant" => out.probe("c12.alg_none_refused"),
                     "part-count" => out.probe("c12.four_parts"),
                     _ => {}
